@@ -2301,13 +2301,16 @@ impl<'a, E: quiver_core::effects::Effect> Compiler<'a, E> {
             if needs_cleanup {
                 // Emit cleanup block: Reset locals to branch start, then jump to target
                 let cleanup_addr = self.codegen.instructions.len();
-                self.codegen
-                    .add_instruction(Instruction::Reset(param_local + 1));
 
                 if let Some(addr) = target_addr {
+                    self.codegen
+                        .add_instruction(Instruction::Reset(param_local + 1));
                     self.codegen.emit_jump_to_addr(addr);
                 } else {
-                    // Target is final end - will patch later
+                    // Target is final end, which lies past the parameter clear: the block is
+                    // left with nil, so its parameter goes too, as on the success path.
+                    self.codegen
+                        .add_instruction(Instruction::Reset(locals_before));
                     final_end_jumps.push(self.codegen.emit_jump_placeholder());
                 }
 
@@ -2318,8 +2321,9 @@ impl<'a, E: quiver_core::effects::Effect> Compiler<'a, E> {
                 if let Some(addr) = target_addr {
                     self.codegen.patch_jump_to_addr(jump_addr, addr);
                 } else {
-                    // Target is final end - will patch later
-                    final_end_jumps.push(jump_addr);
+                    // The block is left with nil: go through the parameter clear, like the
+                    // success path, so that both leave the same locals behind.
+                    self.codegen.patch_jump_to_addr(jump_addr, param_clear_addr);
                 }
             }
         }
